@@ -255,13 +255,13 @@ def defects(rng, rows, model):
             for bad in ("2.5", "0.5...1.5", "1e1", "1...2.0"):
                 # a length is a number of characters: fractions are malformed for every type
                 yield "fractional-length:%s" % ftype, variant(i, setcell(4, bad)), i + 1, None
-            for bad in ("-1", "-3...5", "...-1"):
+            for bad in ("-1", "-3...5", "...-1", "-3, ...5", "...-1, 5", "-3...-1, ...5", "7..., -2"):
                 if ftype == "Constant":
                     continue  # the constant's own length check answers first, still at this row
                 yield "negative-length:%s" % ftype, variant(i, setcell(4, bad)), i + 1, None
         else:
             yield "fixed-without-length", variant(i, setcell(4, "")), i + 1, None
-            for bad in ("1...3", "2...", "...4", "1, 3"):
+            for bad in ("1...3", "2...", "...4", "1, 3", "...4, 5...", "...2, 3", "2, 3..."):
                 yield "fixed-length-range:%s" % ftype, variant(i, setcell(4, bad)), i + 1, None
             for bad in ("0", "-2"):
                 yield "fixed-length-below-one:%s" % ftype, variant(i, setcell(4, bad)), i + 1, None
